@@ -82,6 +82,26 @@ def build_real(spec):
     raise ValueError(k)
 
 
+def build_case_estimator(case):
+    """the estimator a direct case is about: a KoopmanPipeline around the chain, or - when the chain is one stage
+    and the case says so - that stage used directly (lifting function or SplitPipeline)"""
+    if case.get('bare'):
+        return build_real(case['chain'][0])
+    return build_real_top(case['chain'])
+
+
+def n_inputs_form(nu, form):
+    """the same number of inputs as a python int, a numpy integer scalar or a 0-d integer array"""
+    return {'int': int(nu), 'np.int64': np.int64(nu), '0-d array': np.array(int(nu))}[form]
+
+
+def fit_case_estimator(est, case, X):
+    nu = n_inputs_form(case['nu'], case.get('n_inputs_form', 'int'))
+    if hasattr(est, 'fit_transformers'):
+        return est.fit_transformers(X, n_inputs=nu, episode_feature=case['ep'])
+    return est.fit(X, n_inputs=nu, episode_feature=case['ep'])
+
+
 def build_real_top(chain, regressor=None):
     return pykoop.KoopmanPipeline(
         lifting_functions=[(f't{next(_uid)}', build_real(s)) for s in chain],
@@ -119,7 +139,35 @@ CHAIN_POOL = [
     # two angle features (a state and the input) unwrapped on the way back: one episode (recorded finding F11
     # concerns several), values of the two columns more than pi apart in the same sample
     [('angle', (0, 2), True, (0, -1))],
+    [('bilinear',)],          # (keeps the next entry at an index where the stage is used directly)
+    # one unwrapped angle, several episodes that start far apart (consecutive episodes more than pi from each other):
+    # the helpers called with an episode flag on an estimator fitted without one must unwrap per episode
+    [('angle', (0,), True, (0,))],
 ]
+POOL_SINGLE_EPISODE = {6}          # indices of CHAIN_POOL that are generated with one episode
+POOL_FAR_EPISODES = {8}            # ... with an episode feature and episodes alternating around -2.6 / +2.6
+
+
+def _leaves(specs):
+    for sp in specs:
+        if sp[0] == 'split':
+            yield from _leaves(sp[1]); yield from _leaves(sp[2])
+        elif sp[0] == 'pipe':
+            yield from _leaves(sp[1])
+        else:
+            yield sp
+
+
+def grid_after_data_centres(chain):
+    """with the real sub-estimators, RBF id = 2 mod 3 takes every data row as a centre and id = 0 mod 3 puts a grid of
+    2 points per feature: the second after the first means 2^(features + rows) centres"""
+    wide = False
+    for sp in _leaves(chain):
+        if sp[0] == 'rbf' and sp[1] % 3 == 2:
+            wide = True
+        elif sp[0] == 'rbf' and sp[1] % 3 == 0 and wide:
+            return True
+    return False
 
 
 def gen_real_case(rng, cid, max_len=3, max_depth=2, allow=None, short_prob=0.0, need=None,
@@ -135,11 +183,14 @@ def gen_real_case(rng, cid, max_len=3, max_depth=2, allow=None, short_prob=0.0, 
             for sp in chain:
                 d = sg.dims_out(sp, *d)
             need = None
-            if any(sp[0] == 'angle' and sp[2] for sp in chain):
+            if cid in POOL_SINGLE_EPISODE:
                 max_eps = 1
+            if cid in POOL_FAR_EPISODES:
+                ep = True if force_ep is None else force_ep
+                max_eps = max(max_eps, 3); min_eps = max(min_eps, 2)
         else:
             chain, d = sg.gen_chain(rng, ns, nu, max_len, max_depth, allow)
-        if not chain:
+        if not chain or grid_after_data_centres(chain):
             continue
         top = ('pipe', chain)
         if need and not need(top):
@@ -159,7 +210,11 @@ def gen_real_case(rng, cid, max_len=3, max_depth=2, allow=None, short_prob=0.0, 
         if len(order) < w + 2:
             order = order + [order[-1]] * 2
         X = real_data(rng, order, ns, nu, ep)
-        if use_pool and cid < len(CHAIN_POOL) and chain is CHAIN_POOL[cid] and chain[0][0] == 'angle' and chain[0][2]:
+        if use_pool and cid in POOL_FAR_EPISODES and chain is CHAIN_POOL[cid] and ep:
+            labs = sorted(set(order))
+            for r_, l_ in enumerate(order):
+                X[r_, 1] = (2.6 if labs.index(l_) % 2 else -2.6) + 0.1 * X[r_, 1] / 3.0
+        elif use_pool and cid in POOL_SINGLE_EPISODE and chain is CHAIN_POOL[cid]:
             # the two unwrapped angle columns stay more than pi apart (both inside (-pi, pi), both slowly varying)
             o = 1 if ep else 0
             X[:, o + 0] = -2.8 + 0.1 * np.abs(X[:, o + 0])
@@ -218,7 +273,8 @@ def desc(case, **kw):
              fit_on_zero_inputs=bool(case.get('Xfit') is not case['X']),
              cid=int(case.get('cid', 0)), refitted_after_other_layout=bool(case.get('prefit', False)),
              array_presentation=case.get('presentation', 'float'),
-             skip_validation=bool(case.get('skip_validation', False)))
+             skip_validation=bool(case.get('skip_validation', False)), used_directly=bool(case.get('bare', False)),
+             n_inputs_given_as=case.get('n_inputs_form', 'int'))
     d.update(kw)
     return d
 
@@ -277,6 +333,36 @@ def c01_roundtrip(case, kp):
     if not (close(Ti, Tf) and close(Ii, If)):
         return False, dict(what='transform / inverse_transform depend on the dtype of the data (integer-typed array with the '
                                 'same values gives other results)')
+    return True, None
+
+
+def c01_roundtrip_helpers(case, kp):
+    """retract(lift(X)) with a call-time episode flag different from the fit-time one: a twin of the estimator is fitted
+    with the other flag (without an episode feature on the data columns / with one on a zero label column) and used on
+    the case's matrix through lift / retract with the flag of the matrix; per episode the trailing samples come back."""
+    X = np.asarray(case['X'], dtype=float); ep = case['ep']
+    if min_ep_len(case) < case['w']:
+        return True, None
+    twin = build_case_estimator(case)
+    Xf = np.asarray(case.get('Xfit', case['X']), dtype=float)
+    try:
+        if ep:
+            fit_case_estimator(twin, dict(case, ep=False), Xf[:, 1:])
+        else:
+            fit_case_estimator(twin, dict(case, ep=True), np.hstack((np.zeros((Xf.shape[0], 1)), Xf)))
+    except Exception:  # noqa  (the estimator rejects this layout: outside the domain)
+        return True, None
+    R = twin.retract(twin.lift(X, episode_feature=ep), episode_feature=ep)
+    e_in = episodes_of(X, ep); e_r = episodes_of(R, ep)
+    for l, E in e_in.items():
+        if l not in e_r:
+            return False, dict(what='retract(lift(X)) with a call-time episode flag lost an episode', label=l,
+                               twin_fitted_with_episode_feature=not ep)
+        Rl = e_r[l]
+        if Rl.shape[0] == 0 or Rl.shape[0] > E.shape[0] or Rl.shape[1] != E.shape[1] or not close(Rl, E[E.shape[0] - Rl.shape[0]:]):
+            return False, dict(what='retract(lift(X)) with a call-time episode flag different from the fit-time one does not '
+                                    'return the trailing samples of the episode', label=l, twin_fitted_with_episode_feature=not ep,
+                               got=Rl.tolist(), want=E[max(0, E.shape[0] - Rl.shape[0]):].tolist())
     return True, None
 
 
@@ -415,7 +501,7 @@ def c04_dims(case, kp):
                                    label=l, n=int(E.shape[0]), got=int(got), min_samples=int(kp.min_samples_))
     # every intermediate stage produces what it declares
     Xk = X
-    for n_, lf in kp.lifting_functions_:
+    for n_, lf in getattr(kp, 'lifting_functions_', []):
         Xk = lf.transform(Xk)
         if Xk.shape[1] != lf.n_features_out_:
             return False, dict(what='stage transform width != its n_features_out_', stage=n_,
